@@ -21,6 +21,8 @@ pub enum Focus {
 
 pub fn decode_exec_case(tape: &[u8], focus: Focus) -> Value {
     let mut t = Tape::new(tape);
+    // small choices first: the program consumes whatever is left of the tape
+    let s1 = 1 + t.u16() as u32;
     let cfg = gen_cfg(&mut t, &CfgOpts { fixed_prefix: true, rich: true });
     let mut o = opts_for(&cfg, true);
     o.allow_module = false;
@@ -29,7 +31,6 @@ pub fn decode_exec_case(tape: &[u8], focus: Focus) -> Value {
     o.focus_strictness = focus == Focus::Strictness;
     let p = gen_program_t(&mut t, &o);
     let tags: Vec<&str> = p.tags.iter().copied().collect();
-    let s1 = 1 + t.u16() as u32;
     let seeds = vec![s1, s1.wrapping_mul(31).wrapping_add(7) % 65521 + 1, s1.wrapping_mul(131).wrapping_add(3) % 65519 + 1];
     let entry = match p.entry {
         EntryKind::Sync => "Sync",
